@@ -12,7 +12,7 @@ import shutil
 
 from harness import tlc
 from harness import project as pj
-from harness.common import Check, chunks, pmap, tmap, NPROC
+from harness.common import Check, pmap, tmap, NPROC
 
 PID = "C21"
 MAXLEN = 6000          # longer outputs are unjudged (TLC scans are recursive, one level per character)
@@ -60,8 +60,10 @@ def tuples(res, tag):
 
 def draw(chk, wd, plan, cap):
     tasks = []
+    scale = float(os.environ.get("VERIF_C21_SCALE", "1"))       # development aid: shrink a thorough run
     for fmt in FORMATS:
         for cost, seed, n in plan[fmt]:
+            n = max(1, int(n * scale))
             path = os.path.join(wd, "out-%s-%s-%d.jsonl" % (fmt, cost, seed))
             tasks.append({"fmt": fmt, "cost": cost, "seed": seed + chk.seed * 1000, "n": n, "cap": cap, "out_path": path})
     # slowest first
